@@ -105,6 +105,10 @@ DenseSymmetricMatrixPair construct_locality_preserving_eigenproblem(SparseWeight
         }
     }
 
+    // only the upper triangles have been accumulated: mirror them, the eigensolver reads the lower ones
+    lhs = DenseSymmetricMatrix(lhs.selfadjointView<Eigen::Upper>());
+    rhs = DenseSymmetricMatrix(rhs.selfadjointView<Eigen::Upper>());
+
     return DenseSymmetricMatrixPair(lhs, rhs);
 }
 
